@@ -400,6 +400,13 @@ func suiteC06(c *Ctx) []Suite {
 				"S1F1 <B "+strings.Repeat("1 ", 5000)+">.",
 				"S1F1 <L "+strings.Repeat("x ", 300)+strings.Repeat("<A x> ", 40)+">.",
 			)
+			// stream/function codes at and beyond their ranges with every wait-bit form: whatever the
+			// header says, the message constructor is only called with what it accepts
+			for _, sf := range []string{"S1F256", "S1F999", "S128F2", "S200F300", "S1F0", "S0F0", "S127F254", "S127F255", "S128F255", "S1F18446744073709551616", "S99999999999999999999F2"} {
+				for _, w := range []string{"W", "[W]", "w", ""} {
+					texts = append(texts, sf+" "+w+" .", sf+" "+w+" H->E Name <L>.", sf+" "+w+"\n<U1 1>\n.")
+				}
+			}
 			// nesting with variables at the bottom (their names are collected again at every
 			// level): the work must stay polynomial in the depth
 			for _, d := range []int{22, 26, 32, 48, 120, 600} {
@@ -515,6 +522,10 @@ func suiteC08(c *Ctx) []Suite {
 						toks = append([]STok{}, toks...)
 						k := cand[c.R.Intn(len(cand))]
 						toks[k] = STok{"1e999", 0, true}
+						if len(cand) > 1 && c.R.Intn(3) == 0 {
+							// the same mistake twice: two diagnostics with the same text
+							toks[cand[c.R.Intn(len(cand))]] = STok{"1e999", 0, true}
+						}
 						if c.R.Intn(3) == 0 {
 							toks[k] = STok{`"unclosed`, 0, false} // a string that is not closed on its line
 							eolAfter = k + 1
@@ -535,6 +546,7 @@ func suiteC08(c *Ctx) []Suite {
 				t1, p1 := lay1.render(toks)
 				lay2 := randomLayout(c.R)
 				lay2.EOLAfter = eolAfter
+				lay2.EndComment = i%4 == 2 && i%5 != 0
 				if i%3 == 0 {
 					// in a mutated sequence tokens stand where gluing or a case change would alter
 					// the token sequence itself: vary only the separators and comments
@@ -632,6 +644,9 @@ func suiteC08(c *Ctx) []Suite {
 
 // ---------- C15 ----------
 
+// characters that look like escape sequences when they follow a backslash
+const escChars = `\\\\tnx41a'0`
+
 func suiteC15(c *Ctx) []Suite {
 	types := []struct{ ty, elem string }{{"L", "<U1 1>"}, {"A", ""}, {"B", "1"}, {"BOOLEAN", "T"}, {"I1", "1"}, {"I2", "1"}, {"I4", "1"}, {"I8", "1"}, {"U1", "1"}, {"U2", "1"}, {"U4", "1"}, {"U8", "1"}, {"F4", "1.5"}, {"F8", "1.5"}}
 	return []Suite{
@@ -673,7 +688,29 @@ func suiteC15(c *Ctx) []Suite {
 								var body string
 								if t.ty == "A" {
 									if n > 0 {
-										body = ` "` + strings.Repeat("x", n) + `"`
+										// every character counts as one, a backslash and what follows it included
+										chars := make([]byte, n)
+										for k := range chars {
+											chars[k] = 'x'
+											if c.R.Intn(2) == 0 {
+												chars[k] = escChars[c.R.Intn(len(escChars))]
+											}
+										}
+										if c.R.Intn(3) == 0 {
+											// only sequences another language would read as escapes
+											units := []string{`\t`, `\n`, `\\`, `\a`, `\x41`, `\101`, "x", "1"}
+											for tries := 0; tries < 50; tries++ {
+												cand := ""
+												for len(cand) < n {
+													cand += units[c.R.Intn(len(units))]
+												}
+												if len(cand) == n {
+													chars = []byte(cand)
+													break
+												}
+											}
+										}
+										body = ` "` + string(chars) + `"`
 									}
 								} else {
 									body = strings.Repeat(" "+t.elem, n)
@@ -1070,6 +1107,20 @@ func suiteC19(c *Ctx) []Suite {
 				if !okAll {
 					continue
 				}
+				if i%40 == 5 && len(texts) >= 2 {
+					// the same literals in an F4 item of one text and an F8 item of the next
+					lits := []string{"0.1 1e-3 3.3 -2.7", "0.3 16777217 1e10", "3.4028235e38 0.7"}[c.R.Intn(3)]
+					a, b := "F4", "F8"
+					if c.R.Intn(2) == 0 {
+						a, b = b, a
+					}
+					t0 := fmt.Sprintf("S1F1 W H->E\n<%s %s>\n.", a, lits)
+					t1 := fmt.Sprintf("S1F3 W H->E\n<L <%s %s>>\n.", b, lits)
+					if r0, r1 := parseSML(t0), parseSML(t1); !r0.panicked && !r1.panicked && len(r0.errs) == 0 && len(r1.errs) == 0 {
+						texts[0], texts[1] = t0, t1
+						singles[0], singles[1] = r0.msgs, r1.msgs
+					}
+				}
 				var sb strings.Builder
 				for j, t := range texts {
 					sb.WriteString(t)
@@ -1098,6 +1149,35 @@ func suiteC19(c *Ctx) []Suite {
 					}
 				}
 				out = append(out, cs)
+			}
+			return out
+		}},
+		{Name: "sml/concatenation-after-a-long-text", Gen: func(c *Ctx) []Case {
+			// the second text stands more than 16 MiB into the input: offsets are no sizes
+			// (judged on the real code only; the model driver is not fed 16 MB lines)
+			var out []Case
+			first := "S1F1 W H->E Long\n<A \"first\">\n.\n//" + strings.Repeat(" padding", 2100000) + "\n"
+			for _, second := range []string{"S1F3 W H->E\n<L <A \"quoted\"> <U2 65535> <F8 0.1>>\n.", "S1F5 <A[3] \"abc\" > ."} {
+				r1, r2 := parseSML(first), parseSML(second)
+				all := parseSML(first + second)
+				res := ""
+				switch {
+				case r1.panicked || r2.panicked || all.panicked:
+					res = "panic"
+				case len(r1.errs) != 0 || len(r2.errs) != 0:
+					res = "" // not accepted alone: outside the property
+				case len(all.errs) != 0:
+					res = "concatenation of accepted texts rejected: " + all.errs[0]
+				case len(all.msgs) != len(r1.msgs)+len(r2.msgs):
+					res = fmt.Sprintf("concatenation returns %d messages, the texts alone %d", len(all.msgs), len(r1.msgs)+len(r2.msgs))
+				default:
+					for j, m := range append(append([]*ast.DataMessage{}, r1.msgs...), r2.msgs...) {
+						if d := sameMessage(all.msgs[j], m); d != "" {
+							res = fmt.Sprintf("message %d differs from the one parsed alone: %s", j, d)
+						}
+					}
+				}
+				out = append(out, Case{Detail: fmt.Sprintf("a %d-byte first text followed by %q", len(first), second), Oracle: res, Nontrivial: true, Tags: []string{"long-first-text"}})
 			}
 			return out
 		}},
